@@ -78,7 +78,7 @@ prop("C14", level="proof",
      level_note=_RULE_NOTE + " Bounded (not proved): flagged sites not yet under a string-view contract (layer lookup, plot labels, node flattening) are covered by the native renaming check only.",
      explanation="Opacity of names + dotted-boundary contracts at flagged sites.",
      roots=["Rule.assert_applies", "Rule._get_modules_to_check_without_parent_and_submodule_combinations"],
-     bounded=[_b("invariance", "bounded_renaming")], trusted_base=_TB)
+     bounded=[_b("invariance", "bounded_renaming"), _b("layers", "bounded_layer_label_renaming")], trusted_base=_TB)
 prop("C15", level="proof",
      level_text="Frame conditions proved: no function on the evaluation path modifies the evaluable (frame obligations on every contract), Rule.assert_applies changes nothing "
                 "but the alias normalisation of its own configuration, and that normalisation preserves the outcome (lemma C15_reapplication_same_outcome). All postconditions "
@@ -121,3 +121,21 @@ prop("C10", level="exploration",
      level_text="Bounded exploration: random trees with internal and external imports scanned under every external option set; internal modules/imports must be identical in all, externals "
                 "appear/disappear exactly as the property states.",
      level_note=_BND_NOTE, technique=_BND_TECH, explanation="external options frame", roots=[], bounded=[_b("projects", "bounded_externals")], trusted_base=_TB)
+
+prop("C05", level="exploration",
+     level_text="Bounded exploration: random layer partitions (name lists, regex, mixed, unmentioned layers, modules in no layer) on graphs with prefix-named siblings; the real LayerRule "
+                "outcome is compared with the documented layer semantics for all 12 shapes and the two 'any layer' aliases.",
+     level_note=_BND_NOTE, technique=_BND_TECH, explanation="layer rule verdicts", roots=[], bounded=[_b("layers", "bounded_layer_verdicts")], trusted_base=_TB)
+prop("C06", level="exploration",
+     level_text="Bounded exploration: diagrams generated from a random component relation by choosing declaration, reference and arrow forms and line order; the real parser's components and "
+                "dependencies are compared with the relation; files without tags must be rejected.",
+     level_note=_BND_NOTE + "Whole-file re.finditer tokenisation is outside SMT regex theories (DESIGN section 7).", technique=_BND_TECH, explanation="puml parsing", roots=[],
+     bounded=[_b("diagrams", "bounded_puml")], trusted_base=_TB)
+prop("C07", level="exploration",
+     level_text="Bounded exploration: the real DiagramRule outcome is compared with the conformance predicate of the property on random component relations and perturbed import graphs, both "
+                "modes; aggregated messages are checked to contain every violated forbidden pair.",
+     level_note=_BND_NOTE, technique=_BND_TECH, explanation="diagram rule conformance", roots=[], bounded=[_b("diagrams", "bounded_diagram_rule")], trusted_base=_TB)
+prop("C17", level="exploration",
+     level_text="Bounded exploration: labels, existence check and keyword pass-through observed at the intercepted drawing call for random trees and alias maps (nested aliases, prefix-named "
+                "siblings, regex metacharacters).",
+     level_note=_BND_NOTE + "draw_networkx / spring_layout intercepted with unittest.mock.", technique=_BND_TECH, explanation="plot labels", roots=[], bounded=[_b("layers", "bounded_labels")], trusted_base=_TB)
